@@ -86,6 +86,9 @@ func snapshotPhase1(res *scn.Result) {
 	if zzsim.ClockJumps > 0 {
 		res.Probes["clock_moved_to_next_event_because_nobody_could_run"] = zzsim.ClockJumps
 	}
+	if zzsim.LocksLeftHeld > 0 {
+		res.Probes["program_exit_left_a_lock_held"] = zzsim.LocksLeftHeld
+	}
 	if zzsim.FinalizersRun > 0 {
 		res.Faults["finalizers_run_as_simulated_task"] = zzsim.FinalizersRun
 	}
@@ -116,7 +119,11 @@ func main() {
 	}
 	runtime.GOMAXPROCS(procs)
 	if usesFinalizers {
+		// objects are found dead where the fault schedule puts a collection, not
+		// where the pacer happens to: automatic collections are off, with a
+		// ceiling on the heap as the only exception (very large runs)
 		debug.SetGCPercent(-1)
+		debug.SetMemoryLimit(640 << 20)
 	}
 
 	raw, err := os.ReadFile(*scnPath)
